@@ -99,6 +99,8 @@ def tlcify(v):
         return {k: tlcify(x) for k, x in v.items()}
     if isinstance(v, list):
         return [tlcify(x) for x in v]
+    if v is None:
+        return ""        # (the Json module has no null: an absent text field is the empty text)
     return v
 
 
